@@ -290,6 +290,11 @@ pub fn overlay_feature_variations(
 
     let mut boxmap = init_map();
     for (i, (cur_region, _)) in conditional_subs.iter().enumerate() {
+        if cur_region.0.is_empty() {
+            // a rule without any condition set never applies; overlaying nothing
+            // must leave the boxes found so far alone
+            continue;
+        }
         let cur_rank = Rank::new(i);
         for (box_, rank) in std::mem::replace(&mut boxmap, init_map()) {
             for cur_box in &cur_region.0 {
